@@ -1240,9 +1240,7 @@ func TestC05(t *testing.T) {
 		in.Tags = append(in.Tags, "corpus")
 		ins = append(ins, in)
 	}
-	// common.NewRand(seed) starts the generator at seed*G + c and every draw adds G: the streams of
-	// seeds k and k+1 are one draw apart, i.e. the same cases shifted by one.  Hash the seed first.
-	rng := NewRand(NewRand(Seed()).U64())
+	rng := NewRand(Seed())
 	for total := 0; total < n; {
 		r := rng.Fork()
 		var in Input
